@@ -1,7 +1,9 @@
 CONSTANTS
+  Strict = TRUE
   Variant = "delay32"
   MaxMoves = 1
   CfgSel = {"workday", "leap"}
+  StartSel = {1, 2}
 SPECIFICATION MSpec
 CONSTRAINT Bound
 VIEW View
